@@ -196,6 +196,8 @@ private:
 
                 if( isdigit( ch ))
                 {
+                    // a run of digits longer than the buffer is not a sample value
+                    io_error_if( k >= sizeof( buf ) - 1, "Too many digits in pnm file" );
                     buf[ k++ ] = static_cast< char >( ch );
                 }
                 else if( k )
